@@ -28,6 +28,11 @@ type VM struct {
 
 	// moduleCodeFinder - HOWTO get the source code of a module
 	moduleCodeFinder ModuleCodeFinder
+
+	// scopeTrail - the scopes opened by BeginScope() and not yet closed, so that
+	// EndScope() closes the scope it was paired with even when the current module
+	// has changed in between (an error leaves call frames on the stack)
+	scopeTrail []*Scope
 }
 
 type ElementMap = map[string]Element
@@ -156,16 +161,29 @@ func (vm *VM) SetReturnValue(value Element) {
 
 func (vm *VM) BeginScope() {
 	scope := vm.getCurrentScope()
+	vm.scopeTrail = append(vm.scopeTrail, scope)
 	if scope != nil {
 		scope.BeginScope()
 	}
 }
 
-// EndScope - end current scope
+// EndScope - end the scope opened by the matching BeginScope()
 func (vm *VM) EndScope() {
 	scope := vm.getCurrentScope()
+	if n := len(vm.scopeTrail); n > 0 {
+		scope = vm.scopeTrail[n-1]
+		vm.scopeTrail = vm.scopeTrail[:n-1]
+	}
 	if scope != nil {
 		scope.EndScope()
+	}
+}
+
+// UnwindCallStack - drop the call frames above the given depth; they are left on
+// the stack (for the error trace) by calls that ended with an error
+func (vm *VM) UnwindCallStack(depth int) {
+	for vm.csCount > depth && vm.csCount > 0 {
+		vm.PopCallFrame()
 	}
 }
 
